@@ -131,7 +131,9 @@ func (db *DB) updateAddOrderIDs(ctx context.Context, accID string, includeReadyO
 		if !nosql.IsErrNotFound(err) {
 			return nil, errors.Wrapf(err, "error loading orderIDs for account %s", accID)
 		}
-	} else {
+	} else if len(b) > 0 {
+		// An empty value is what is left behind when the list became empty; it
+		// is not valid JSON and must be read as the empty list.
 		if err := json.Unmarshal(b, &oldOids); err != nil {
 			return nil, errors.Wrapf(err, "error unmarshaling orderIDs for account %s", accID)
 		}
